@@ -11,8 +11,11 @@ import (
 	"os"
 	"strconv"
 	"strings"
+	"sync/atomic"
 	"time"
 )
+
+var opStart int64 // wall clock at the start of the running operation (0: none)
 
 type handler func(s *sess, tk []string)
 
@@ -55,6 +58,19 @@ func main() {
 	out := bufio.NewWriterSize(os.Stdout, 1<<20)
 	defer out.Flush()
 	s := &sess{out: out, root: root, st: map[string]interface{}{}}
+	// watchdog: no operation of a case takes longer than a few seconds; one that does not return
+	// (a deadlock, a lock that is never released) ends the process with a fatal error, which the
+	// runner turns into the observation PROCESS-CRASHED of its case
+	go func() {
+		for {
+			time.Sleep(time.Second)
+			if t := atomic.LoadInt64(&opStart); t != 0 && time.Now().Unix()-t > 120 {
+				out.Flush()
+				fmt.Fprintln(os.Stderr, "fatal error: operation did not return within the watchdog time (hang)")
+				os.Exit(3)
+			}
+		}
+	}()
 	sc := bufio.NewScanner(f)
 	sc.Buffer(make([]byte, 1<<20), 1<<28)
 	for sc.Scan() {
@@ -94,6 +110,8 @@ func main() {
 			if !strings.HasPrefix(tk[0], "cli") {
 				s.echo(line)
 			}
+			atomic.StoreInt64(&opStart, time.Now().Unix())
+			defer atomic.StoreInt64(&opStart, 0)
 			h(s, tk)
 		}()
 	}
